@@ -156,6 +156,7 @@ type ReverseInnerSearcher struct {
 	universalPrefix bool // True if prefix is .* (matches everything from start)
 	universalSuffix bool // True if suffix ends with .* (matches everything to end)
 	startAnchored   bool // True if prefix only contains start anchors (^, ^+, etc.)
+	prefixEmptyOK   bool // True if prefix can match the empty string (.*, k*, ^), false for .+, \w+
 	fwdCachePool    sync.Pool
 	revCachePool    sync.Pool
 }
@@ -278,6 +279,10 @@ func NewReverseInnerSearcher(
 	universalSuffix := endsWithUniversalMatch(innerInfo.SuffixAST)
 	// Check if prefix is only start anchors (^, ^+, etc.) - trivially matches at position 0
 	startAnchored := isStartAnchorOnly(innerInfo.PrefixAST)
+	// A candidate at the very start of the search span has an EMPTY prefix region.
+	// The reverse DFA is never run on an empty region, so remember statically whether
+	// the prefix accepts the empty string (`.*`, `k*` do; `.+`, `\w+` do not).
+	prefixEmptyOK := innerInfo.PrefixAST != nil && canMatchEmpty(innerInfo.PrefixAST)
 
 	s := &ReverseInnerSearcher{
 		forwardNFA:      suffixNFA,
@@ -291,6 +296,7 @@ func NewReverseInnerSearcher(
 		universalPrefix: universalPrefix,
 		universalSuffix: universalSuffix,
 		startAnchored:   startAnchored,
+		prefixEmptyOK:   prefixEmptyOK,
 	}
 	s.fwdCachePool = sync.Pool{
 		New: func() any { return s.forwardDFA.NewCache() },
@@ -409,6 +415,9 @@ func (s *ReverseInnerSearcher) Find(haystack []byte) *Match {
 		// Check if we can reach this inner literal from an earlier position.
 		// Use minMatchStart to avoid re-scanning regions already proven to have no match.
 		matchStart := s.reverseDFA.SearchReverseLimited(revCache, haystack, 0, pos, minMatchStart)
+		if pos == 0 && s.prefixEmptyOK {
+			matchStart = 0 // empty prefix region: SearchReverseLimited reports -1 for it
+		}
 		if matchStart == lazy.SearchReverseLimitedQuadratic {
 			// Reverse scan hit the anti-quadratic guard - fall back to PikeVM
 			start, end, found := s.pikevm.Search(haystack)
@@ -497,10 +506,12 @@ func (s *ReverseInnerSearcher) IsMatch(haystack []byte) bool {
 		// Special cases for pos=0:
 		//   - universalPrefix (.*): trivially matches empty prefix
 		//   - startAnchored (^, ^+): trivially matches at position 0
+		//   - any other prefix that accepts the empty string (.*k*, .*\d?)
+		// but NOT `.+` / `\w+`, which need at least one character before the literal.
 		prefixMatches := false
-		if pos == 0 && (s.universalPrefix || s.startAnchored) {
-			// Universal prefix (.*) or start anchor (^) matches at position 0
-			prefixMatches = true
+		if pos == 0 {
+			// Nothing precedes the literal: the prefix has to match the empty string
+			prefixMatches = s.prefixEmptyOK
 		} else if pos > 0 {
 			// Use SearchReverseLimited for anti-quadratic protection
 			revResult := s.reverseDFA.SearchReverseLimited(revCache, haystack, 0, pos, minStart)
@@ -586,6 +597,9 @@ func (s *ReverseInnerSearcher) findIndicesAtImpl(haystack []byte, at int, fwdCac
 		// Step 1: Reverse search on PREFIX portion with anti-quadratic guard
 		// Use minMatchStart to avoid re-scanning regions already checked
 		matchStart := s.reverseDFA.SearchReverseLimited(revCache, haystack, at, pos, minMatchStart)
+		if pos == at && s.prefixEmptyOK {
+			matchStart = at // empty prefix region: SearchReverseLimited reports -1 for it
+		}
 		if matchStart == lazy.SearchReverseLimitedQuadratic {
 			// Quadratic behavior detected - fall back to PikeVM
 			return s.pikevm.SearchAt(haystack, at)
